@@ -78,6 +78,10 @@ categories = Flags.all().to_set()
 
 
 def xdist_running(config):
+    if hasattr(config, "workerinput"):
+        # xdist resets numprocesses to None in its worker processes
+        return True
+
     return (
         hasattr(config.option, "numprocesses")
         and config.option.numprocesses is not None
